@@ -212,6 +212,11 @@ enum Src {
     Truncate,
     Extend,
     Empty,
+    /// the outer message stays well-formed; one opaque inner field (0 = first, 1 = the verifier
+    /// share of a Continue message) is altered in length: 0 = one byte appended, 1 = last byte
+    /// dropped, 2 = emptied, 3 = two bytes appended, 4 = doubled. Every VDAF used here has
+    /// fixed-length share/message encodings, so each of these makes the field undecodable.
+    Inner(u8, u8),
 }
 
 #[derive(Clone, Debug, PartialEq, Eq)]
@@ -287,6 +292,45 @@ where
             Src::Empty => {
                 pend?;
                 Some(vec![])
+            }
+            Src::Inner(field, how) => {
+                let pend = pend?;
+                let mut m = PingPongMessage::get_decoded(pend).ok()?;
+                {
+                    let f: &mut Vec<u8> = match (&mut m, field) {
+                        (PingPongMessage::Initialize { verifier_share }, 0) => verifier_share,
+                        (PingPongMessage::Continue { verifier_message, .. }, 0) => verifier_message,
+                        (PingPongMessage::Continue { verifier_share, .. }, 1) => verifier_share,
+                        (PingPongMessage::Finish { verifier_message }, 0) => verifier_message,
+                        _ => return None,
+                    };
+                    match how {
+                        0 => f.push(0),
+                        1 => {
+                            f.pop()?;
+                        }
+                        2 => {
+                            if f.is_empty() {
+                                return None;
+                            }
+                            f.clear()
+                        }
+                        3 => f.extend_from_slice(&[0xA5, 0x5A]),
+                        _ => {
+                            if f.is_empty() {
+                                return None;
+                            }
+                            let c = f.clone();
+                            f.extend_from_slice(&c)
+                        }
+                    }
+                }
+                let b = m.get_encoded().ok()?;
+                if b == *pend {
+                    None
+                } else {
+                    Some(b)
+                }
             }
         }
     }
@@ -367,6 +411,11 @@ where
                             out.push(Act::Deliver(p, Src::Truncate));
                             out.push(Act::Deliver(p, Src::Extend));
                             out.push(Act::Deliver(p, Src::Empty));
+                            for field in 0..2u8 {
+                                for how in 0..5u8 {
+                                    out.push(Act::Deliver(p, Src::Inner(field, how)));
+                                }
+                            }
                         }
                     }
                 }
@@ -683,7 +732,7 @@ where
 
 fn main() {
     let run = Run::from_args("C12", Level::ModelChecking);
-    run.rule("stateright BFS over the ping-pong model: state = (leader, helper) each Start | Waiting(enc verifier state) | HasContinuation(enc continuation) | Finished(enc output), the message in flight, the log of all messages, faults used; actions = leader_initialized, Deliver(correct pending | any earlier message | pending re-typed to another variant | byte flip / truncate / extend / empty), Evaluate(stored continuation, decoded and evaluated 3x); every transition calls the real routines on values reloaded from their encodings; fault budget = deviation bound. distinct = subjects (VDAF x rounds x budget)");
+    run.rule("stateright BFS over the ping-pong model: state = (leader, helper) each Start | Waiting(enc verifier state) | HasContinuation(enc continuation) | Finished(enc output), the message in flight, the log of all messages, faults used; actions = leader_initialized, Deliver(correct pending | any earlier message | pending re-typed to another variant | byte flip / truncate / extend / empty | one inner opaque field of the well-formed pending message lengthened, shortened, emptied or doubled), Evaluate(stored continuation, decoded and evaluated 3x); every transition calls the real routines on values reloaded from their encodings; fault budget = deviation bound. distinct = subjects (VDAF x rounds x budget)");
     run.assume("two parties (the topology's definition); the dummy VDAF's empty messages make replays indistinguishable, so only kind/undecodable faults are judged for it");
     let q = run.quick();
     let budget = if q { 2 } else { 3 };
